@@ -95,9 +95,11 @@ func cmdCheck(args []string) {
 	}
 	t0 := time.Now()
 	w := mustWorld(*repo, filepath.Join(*verif, "specs"))
-	timeout := 6
+	// per-query limits: generous, because a limit only matters for the few slow queries and a loaded machine must not
+	// turn a proof into an alarm
+	timeout := 40
 	if *tier == "thorough" {
-		timeout = 60
+		timeout = 150
 	}
 	sv := newSolver(timeout, 15)
 	sv.Cross = *tier == "thorough"
@@ -154,6 +156,11 @@ func cmdCheck(args []string) {
 					outOfScope = append(outOfScope, fnName(fn))
 					continue
 				}
+			}
+			if fn.Parent() != nil {
+				// anonymous functions are executed symbolically where their parent runs or defers them
+				transparent = append(transparent, fnName(fn)+" (closure, verified with its parent)")
+				continue
 			}
 			if !rootSet[fn] && w.contracts[fnName(fn)] == nil && w.transparentEligible(fn) {
 				transparent = append(transparent, fnName(fn))
